@@ -4,6 +4,7 @@ package main
 
 import (
 	"fmt"
+	"os"
 	"go/token"
 	"go/types"
 	"sort"
@@ -156,6 +157,28 @@ func (g *Gen) resolveCallee(c *ssa.CallCommon) callTarget {
 		return t
 	}
 	// dynamic function value
+	name := dynCalleeName(c)
+	t := callTarget{dynamic: true, sig: c.Signature()}
+	if key, ok := g.contract.ParamSpecs[name]; ok && name != "" {
+		t.key = key
+		t.fn = g.w.funcs[key]
+		t.contract = g.specs.Contracts[key]
+		if t.fn != nil {
+			t.sig = t.fn.Signature
+			if t.fn.Pkg != nil {
+				t.pkg = t.fn.Pkg.Pkg
+			}
+			if t.contract == nil {
+				t.contract = g.lookupContract(t.fn)
+			}
+			t.closure = g.val(c.Value)
+		}
+	}
+	return t
+}
+
+// dynCalleeName: the source-level name (parameter, captured variable, field or local) of a called function value.
+func dynCalleeName(c *ssa.CallCommon) string {
 	name := ""
 	switch v := c.Value.(type) {
 	case *ssa.Parameter:
@@ -174,23 +197,15 @@ func (g *Gen) resolveCallee(c *ssa.CallCommon) callTarget {
 			name = st.Field(fa.Field).Name()
 		}
 	}
-	t := callTarget{dynamic: true, sig: c.Signature()}
-	if key, ok := g.contract.ParamSpecs[name]; ok && name != "" {
-		t.key = key
-		t.fn = g.w.funcs[key]
-		t.contract = g.specs.Contracts[key]
-		if t.fn != nil {
-			t.sig = t.fn.Signature
-			if t.fn.Pkg != nil {
-				t.pkg = t.fn.Pkg.Pkg
+	if name == "" && c.Value.Referrers() != nil {
+		for _, ref := range *c.Value.Referrers() {
+			if d, ok := ref.(*ssa.DebugRef); ok && d.Object() != nil {
+				name = d.Object().Name()
+				break
 			}
-			if t.contract == nil {
-				t.contract = g.lookupContract(t.fn)
-			}
-			t.closure = g.val(c.Value)
 		}
 	}
-	return t
+	return name
 }
 
 func (g *Gen) lookupContract(fn *ssa.Function) *Contract {
@@ -523,10 +538,40 @@ func (g *Gen) applyContract(t callTarget, c *ssa.CallCommon, args []string, recv
 		}
 		g.vc.AssumeAt(guard, tm, "ensures of "+t.key+": "+e.Text)
 	}
-	if ct.Flags["yields"] != "" {
-		// after a blocking call other goroutines may have run again
+	// ghost updates of the callee (`sets`) are facts about the post-state
+	for _, sd := range ct.Sets {
+		v, err := envPost.EvalVal(sd.E)
+		if err != nil {
+			g.errorf("%s: sets at call from %s: %v", sd.Line, funcKey(g.fn), err)
+			continue
+		}
+		cells, err := g.designatorCells(sd.Target, envPre)
+		if err != nil || len(cells) != 1 {
+			g.errorf("%s: sets target at call: %v", sd.Line, err)
+			continue
+		}
+		c := cells[0]
+		cur := post.Get(c.varName, c.sort)
+		g.vc.AssumeAt(guard, Eq(nestedSelect(cur, c.addrs), v.T), "ghost update of "+t.key+": "+sd.Target)
 	}
 	return post, results
+}
+
+// splitConj splits A ==> (B && C) into A ==> B, A ==> C (and plain conjunctions into their parts).
+func splitConj(e Expr) []Expr {
+	if b, ok := e.(*EBin); ok {
+		switch b.Op {
+		case "&&":
+			return append(splitConj(b.L), splitConj(b.R)...)
+		case "==>":
+			var out []Expr
+			for _, r := range splitConj(b.R) {
+				out = append(out, &EBin{"==>", b.L, r})
+			}
+			return out
+		}
+	}
+	return []Expr{e}
 }
 
 // doReturn records a return site; obligations are generated once for the joined exit state.
@@ -609,6 +654,19 @@ func (g *Gen) finishReturns() {
 		label := e.Name
 		if label == "" {
 			label = fmt.Sprint(i + 1)
+		}
+		if os.Getenv("GOVC_SPLIT") != "" {
+			// debugging aid: one obligation per conjunct of the consequent
+			parts := splitConj(e.E)
+			if len(parts) > 1 {
+				for k, pe := range parts {
+					pt, err := env.EvalBool(pe)
+					if err == nil {
+						g.vc.Assert(fmt.Sprintf("%s#ensures:%s.%d", funcKey(g.fn), label, k+1), "ensures", guard, pt, pos, exprString(pe))
+					}
+				}
+				continue
+			}
 		}
 		g.vc.Assert(fmt.Sprintf("%s#ensures:%s", funcKey(g.fn), label), "ensures", guard, t, pos, e.Text)
 	}
